@@ -38,8 +38,9 @@ type FaultCase struct {
 }
 
 var readCalls = []string{"get", "has", "getwithindex", "getbyindex", "iterate", "iterator", "proof", "nonmembership_proof", "getversioned", "getimmutable_hash",
-	"export", "loadversion", "statechanges", "working_get", "working_iterate", "working_iterator", "versionexists_available"}
-var writeCalls = []string{"set_save", "remove_save", "save_noop", "prune", "lvfo", "import"}
+	"export", "loadversion", "statechanges", "working_get", "working_iterate", "working_iterator", "versionexists_available",
+	"versioned_proof", "membership_proof"}
+var writeCalls = []string{"set_save", "remove_save", "save_noop", "prune", "lvfo", "import", "dvf", "savechangeset"}
 
 func isWriteCall(k string) bool {
 	for _, w := range writeCalls {
@@ -128,6 +129,33 @@ func execCall(tr *iavl.MutableTree, c FaultCall, importNodes []*iavl.ExportNode)
 			return callResult{res: "empty"}
 		}
 		p, err := it.GetProof(c.K)
+		if err != nil {
+			return callResult{err: err}
+		}
+		b, _ := p.Marshal()
+		return callResult{res: fmt.Sprintf("%x", b)}
+	case "versioned_proof":
+		// (proofs are defined for non-empty versions only - C03; GetMembershipProof of an empty tree dereferences a nil root)
+		if it, err := imm(); err != nil {
+			return callResult{err: err}
+		} else if it.Size() == 0 {
+			return callResult{res: "empty"}
+		}
+		p, err := tr.GetVersionedProof(c.K, c.N)
+		if err != nil {
+			return callResult{err: err}
+		}
+		b, _ := p.Marshal()
+		return callResult{res: fmt.Sprintf("%x", b)}
+	case "membership_proof":
+		it, err := imm()
+		if err != nil {
+			return callResult{err: err}
+		}
+		if it.Size() == 0 {
+			return callResult{res: "empty"}
+		}
+		p, err := it.GetMembershipProof(c.K)
 		if err != nil {
 			return callResult{err: err}
 		}
@@ -232,6 +260,24 @@ func execCall(tr *iavl.MutableTree, c FaultCall, importNodes []*iavl.ExportNode)
 			return callResult{err: err}
 		}
 		return callResult{res: fmt.Sprintf("%x", tr.Hash())}
+	case "dvf":
+		return callResult{res: "done", err: tr.DeleteVersionsFrom(c.N + 1)}
+	case "savechangeset":
+		cs := &iavl.ChangeSet{}
+		if c.Asc {
+			cs.Pairs = append(cs.Pairs, &iavl.KVPair{Delete: true, Key: c.K})
+		} else {
+			val := c.V
+			if val == nil {
+				val = []byte{}
+			}
+			cs.Pairs = append(cs.Pairs, &iavl.KVPair{Key: c.K, Value: val})
+		}
+		v, err := tr.SaveChangeSet(cs)
+		if err != nil {
+			return callResult{err: err}
+		}
+		return callResult{res: fmt.Sprintf("%d %x", v, tr.Hash())}
 	case "import":
 		err := ImportAll(tr, c.N, importNodes, false)
 		if err != nil {
@@ -422,7 +468,7 @@ func reopenAfterFault(img *dbm.MemDB, pre modelSnap, call FaultCall, r callResul
 		if err != nil {
 			return &Violation{Prop: "C17", Obs: "reopen.listed_unreadable", Msg: fmt.Sprintf("after the failed %s version %d is listed but GetImmutable fails: %v", call.Kind, ver, err)}
 		}
-		if vs, ok := pre.vers[ver]; ok && !(call.Kind == "lvfo" && ver > call.N) {
+		if vs, ok := pre.vers[ver]; ok && !((call.Kind == "lvfo" || call.Kind == "dvf") && ver > call.N) {
 			if string(it.Hash()) != string(rhash(vs.Root, 0, false)) {
 				return &Violation{Prop: "C17", Obs: "reopen.hash", Msg: fmt.Sprintf("after the failed %s version %d has hash %x want %x", call.Kind, ver, it.Hash(), rhash(vs.Root, 0, false))}
 			}
@@ -434,7 +480,7 @@ func reopenAfterFault(img *dbm.MemDB, pre modelSnap, call FaultCall, r callResul
 		}
 	}
 	switch call.Kind {
-	case "set_save", "remove_save", "save_noop":
+	case "set_save", "remove_save", "save_noop", "savechangeset":
 		if lv != pre.latest && lv != pre.latest+1 && !(pre.latest == 0) {
 			return &Violation{Prop: "C17", Obs: "reopen.range", Msg: fmt.Sprintf("after the failed commit the latest version is %d (was %d)", lv, pre.latest)}
 		}
